@@ -294,7 +294,7 @@ theorem multitaper_shift {ω : K} {nfft : ℕ} (hω : ω ^ nfft = 1) (method : M
 `multitaper_shift`): if the data `x'` has the length and the energy `Σ_j|x'_j|²` of `x` (what a unimodular
 modulation does) and every row of the table `SkA'` of squared eigenspectra is the row of `SkA` rotated by
 `m` bins (`SkA'[t][k] = SkA[t][(k - m) mod NFFT]`), then `pmtm(method='adapt')` — start estimate, data
-power, tolerance, and all (at most 100) passes of the `while` loop with its stopping test — returns the
+power, tolerance, and all (at least one, at most 100) passes of the `while` loop with its stopping test — returns the
 weights table of `x` with its `NFFT` rows rotated by `m` (`numpy.roll(W, m, axis=0)`), and the adaptive
 multitaper mean is the mean of `x` rotated by `m` bins (`numpy.roll(·, m)`). -/
 theorem multitaper_shift_adapt [ReOrd K] {nfft m : ℕ} (hm : m < nfft) (x' x lams : List K)
